@@ -16,6 +16,8 @@ CBCH Mobile Allocation until SI1; gsm48_decode_sysinfo1 sets si1 and re-decodes 
 gsm48_decode_sysinfo1 + gsm48_decode_sysinfo4 on one struct gsm48_sysinfo (mode "hist" of charness/c20_si4.c; decode_freq_list stubbed:
 installs the given cell allocation; the member behind si4_msg poisoned), histories [SI1, A], [A, SI1], [SI1, A, B], [A, SI1, B], [A, B, SI1];
 oracle: after SI1 and an SI4 with a complete IE inside the first 23 octets the list is the specified one, whatever the order (key c20-si4-si1-order).
+The Cell Channel Description sub-branch of gsm48_rr_render_ma (Model/MobAllocCd.v, Proofs/MobAllocCdP.v): modes "rendercd" / "freqlist" of
+charness/c20_si4.c with the vendored gsm48_ie.c linked in (real gsm48_decode_freq_list); oracle keys c20-render-cell-desc-{list,table,cause,memory}.
 The assignment messages (Model/MobAllocAss.v, Proofs/MobAllocAssP.v): the guards and the memcpy 'message -> cd_now.mob_alloc_lv' of gsm48_rr_rx_imm_ass /
 gsm48_rr_rx_imm_ass_ext, composed with render_ma.  Tie: w_c20_assign against the verbatim handlers (mode "assign" of charness/c20_si4.c), observing
 cd_now.mob_alloc_lv and the list gsm48_rr_render_ma produces for gsm48_rr_dl_est; oracle keys c20-assign-mob-alloc-copy / c20-assign-list / c20-assign-guard.
@@ -113,8 +115,11 @@ def extract_si4_sources():
     with open(os.path.join(REPO, GSM48_RR_H)) as f:
         m = re.search(r"uint8_t\s+mob_alloc_lv\s*\[\s*([^\]]+)\]\s*;", f.read())
     lv = m.group(1).strip() if m and re.fullmatch(r"[\s0-9xXa-fA-FuUlL<>+\-*/()]+", m.group(1).strip()) else "0"
-    common.write_if_changed(os.path.join(d, "c20_si4_defs.inc"), "/* extracted from %s */\n#define C20_MOB_ALLOC_LV_SIZE (%s)\n%s" % (
-        GSM48_RR_H, lv, "#define C20_STUB_RACH 1\n" if stub_rach else ""))
+    with open(os.path.join(REPO, GSM48_RR_H)) as f:
+        m = re.search(r"uint8_t\s+cell_desc_lv\s*\[\s*([^\]]+)\]\s*;", f.read())
+    cdl = m.group(1).strip() if m and re.fullmatch(r"[\s0-9xXa-fA-FuUlL<>+\-*/()]+", m.group(1).strip()) else "0"
+    common.write_if_changed(os.path.join(d, "c20_si4_defs.inc"), "/* extracted from %s */\n#define C20_MOB_ALLOC_LV_SIZE (%s)\n#define C20_CELL_DESC_LV_SIZE (%s)\n%s" % (
+        GSM48_RR_H, lv, cdl, "#define C20_STUB_RACH 1\n" if stub_rach else ""))
     try:
         render = common.c_function_text(os.path.join(REPO, GSM48_RR_C), "gsm48_rr_render_ma")
     except (RuntimeError, OSError):
@@ -142,8 +147,15 @@ def build_si4(ctx):
     flags = "-I%s/charness/stubs/c20 -I%s/src/host/layer23/include -I%s/include -I%s/c" % (ROOT, REPO, LIBOSMO, WORK)
     src = [os.path.join(ROOT, "charness/c20_si4.c")]
     with_render = False
-    _SI4["assign"] = False
-    if render is not None and _SI4.get("assign_text"):
+    _SI4["assign"] = _SI4["freqlist"] = False
+    ie_c = os.path.join(LIBOSMO, "src/gsm/gsm48_ie.c")
+    if render is not None and _SI4.get("assign_text") and os.path.exists(ie_c):
+        # the vendored gsm48_ie.c supplies the real gsm48_decode_freq_list
+        ok, path, log = common.cc("c20_si4", src + [ie_c], flags=flags + " -I%s/charness/stubs/a/b -DC20_WITH_RENDER -DC20_WITH_ASSIGN -DC20_REAL_FREQ_LIST" % ROOT)
+        with_render = _SI4["assign"] = _SI4["freqlist"] = ok
+        if not ok:
+            ctx.note("the vendored gsm48_ie.c does not link into the harness (Cell Channel Description sub-branch not executed): " + log[-400:].replace("\n", " | "))
+    if render is not None and _SI4.get("assign_text") and not with_render:
         ok, path, log = common.cc("c20_si4", src, flags=flags + " -DC20_WITH_RENDER -DC20_WITH_ASSIGN")
         with_render = _SI4["assign"] = ok
         if not ok:
@@ -166,18 +178,19 @@ def gen(ctx):
     import hashlib
     si4bin, with_render, si4_text, render_text = build_si4(ctx)
     out = subprocess.run([si4bin, "const"], stdout=subprocess.PIPE, text=True, timeout=30).stdout.split()
-    eio, ie_cd, ie_ma, hdr, cdsz, lvsz, cause, msgsz = [int(x) for x in out]
+    eio, ie_cd, ie_ma, hdr, cdsz, lvsz, cause, msgsz, abn, cdlsz = [int(x) for x in out]
     txt = common.gen_header("errno.h EIO, gsm_04_08.h GSM48_IE_CBCH_CHAN_DESC / GSM48_IE_CBCH_MOB_AL / sizeof(struct gsm48_system_information_type_4) / "
-                            "sizeof(struct gsm48_chan_desc) / GSM48_RR_CAUSE_NO_CELL_ALLOC_A, sysinfo.h sizeof(struct gsm48_sysinfo.si4_msg), gsm48_rr.h sizeof(struct gsm48_rr_cd.mob_alloc_lv) - all as compiled")
+                            "sizeof(struct gsm48_chan_desc) / GSM48_RR_CAUSE_NO_CELL_ALLOC_A, GSM48_RR_CAUSE_ABNORMAL_UNSPEC, sysinfo.h sizeof(struct gsm48_sysinfo.si4_msg), gsm48_rr.h sizeof(struct gsm48_rr_cd.cell_desc_lv), sizeof(struct gsm48_rr_cd.mob_alloc_lv) - all as compiled")
     txt += ("Definition c_EIO : Z := %d.\nDefinition c_IE_CBCH_CHAN_DESC : Z := %d.\nDefinition c_IE_CBCH_MOB_AL : Z := %d.\n"
             "Definition c_SI4_HDR_SIZE : Z := %d.\nDefinition c_CHAN_DESC_SIZE : Z := %d.\nDefinition c_MOB_ALLOC_LV_SIZE : Z := %d.\n"
-            "Definition c_CAUSE_NO_CELL_ALLOC_A : Z := %d.\nDefinition c_SI4_MSG_SIZE : Z := %d.\n" % (eio, ie_cd, ie_ma, hdr, cdsz, lvsz, cause, msgsz))
+            "Definition c_CAUSE_NO_CELL_ALLOC_A : Z := %d.\nDefinition c_SI4_MSG_SIZE : Z := %d.\n"
+            "Definition c_CAUSE_ABNORMAL_UNSPEC : Z := %d.\nDefinition c_CELL_DESC_LV_SIZE : Z := %d.\n" % (eio, ie_cd, ie_ma, hdr, cdsz, lvsz, cause, msgsz, abn, cdlsz))
     ctx.gen("MobAllocSi4Const", txt)
-    _SI4.update(bin=si4bin, render=with_render, hdr=hdr, lv=lvsz, msgsz=msgsz,
+    _SI4.update(bin=si4bin, render=with_render, hdr=hdr, lv=lvsz, msgsz=msgsz, cdl=cdlsz, abn=abn,
                 si4_sha=hashlib.sha256(si4_text.encode()).hexdigest(),
                 render_sha=hashlib.sha256(render_text.encode()).hexdigest() if render_text else None)
     ctx.extra["gen_constants_callers"] = dict(EIO=eio, IE_CBCH_CHAN_DESC=ie_cd, IE_CBCH_MOB_AL=ie_ma, si4_header=hdr, chan_desc=cdsz,
-                                              mob_alloc_lv=lvsz, cause_no_cell_alloc=cause, si4_msg=msgsz, render_harness=with_render)
+                                              mob_alloc_lv=lvsz, cause_no_cell_alloc=cause, si4_msg=msgsz, cause_abnormal=abn, cell_desc_lv=cdlsz, render_harness=with_render)
     bins = build_c(ctx)
     out = subprocess.run([bins, "const"], stdout=subprocess.PIPE, text=True, timeout=30).stdout.split()
     serv, hopp, fsize, hsize, einval, esize, fcap = [int(x) for x in out]
@@ -585,6 +598,125 @@ def render_spec_py(c):
     return ("n0" if not sel else "n64" if len(sel) == 64 else "n+", l), [101 if not sel else 0] + exp[1:]
 
 
+# ------------------------------------------------------------------ gsm48_rr_render_ma with a Cell Channel Description
+
+def mk_rendercd(hl0, hfill, bg, lv, cdlv, table, kind, other=None):
+    d = dict(path="rendercd", hl0=hl0, hfill=hfill, bg=bg, lv=list(lv), cdlv=list(cdlv), other=list(other or []), table=dict(table), kind=kind)
+    if other is not None:
+        d["other_fixed"] = True
+    return d
+
+
+def line_of_rendercd(c):
+    a = [c["hl0"], c["hfill"], c["bg"], len(c["lv"])] + c["lv"] + [len(c["cdlv"])] + c["cdlv"] + [len(c["other"])] + c["other"]
+    for k in sorted(c["table"]):
+        a += [k, c["table"][k]]
+    return " ".join(map(str, a))
+
+
+def rendercd_of_line(line, kind):
+    a = [int(x) for x in line.split()]
+    n1 = a[3]
+    lv = a[4:4 + n1]
+    n2 = a[4 + n1]
+    cdlv = a[5 + n1:5 + n1 + n2]
+    n3 = a[5 + n1 + n2]
+    other = a[6 + n1 + n2:6 + n1 + n2 + n3]
+    rest = a[6 + n1 + n2 + n3:]
+    t = {rest[i]: rest[i + 1] for i in range(0, len(rest) - 1, 2)}
+    return mk_rendercd(a[0], a[1], a[2], lv, cdlv, t, kind, other=other)
+
+
+def show_rendercd(c):
+    ca = [a for a, m in enumerate(masks_of(c)) if m & 1]
+    return dict(path="rendercd", kind=c["kind"], mob_alloc_lv=" ".join("%02x" % b for b in c["lv"]),
+                cell_desc_lv=" ".join("%02x" % b for b in c["cdlv"]), hl0=c["hl0"], hfill=c["hfill"],
+                cell_alloc_before=ca if len(ca) <= 80 else ca[:80] + ["...(%d)" % len(ca)], line=line_of_rendercd(c))
+
+
+def bitmap0_octets(arfcns):
+    """44.018 10.5.2.1b, bit map 0: 16 octets; octet 1 bits 8,7 = 00 (format), bits 4..1 = ARFCN 124..121; octet k: ARFCN 8*(16-k)+8 .. 8*(16-k)+1"""
+    o = [0] * 16
+    for a in arfcns:
+        o[15 - (a - 1) // 8] |= 1 << ((a - 1) % 8)
+    return o
+
+
+def gen_rendercd_cases(rng, n):
+    cases = []
+    shapes = ["bm0", "bm0", "bm0", "bm0-low", "bm0-low", "absent", "absent-junk", "wrong-len", "other"]
+    for k in range(n):
+        # the serving cell's allocation (what SI1 left): mostly inside 1..124 so that it competes with the description
+        pool = list(range(1, 125)) if rng.chance(3, 4) else list(range(0, 1024))
+        rng.shuffle(pool)
+        ca = pool[:rng.choice([0, 1, 3, 4, 8, 9, 17, 40])]
+        bg = rng.choice([0, 0, 2, 0x1C, 0xFE])
+        t = {a: 1 | (rng.below(256) & 0xFE if rng.chance(1, 3) else 0) for a in ca}
+        shape = shapes[k % len(shapes)]
+        l = 1 + rng.below(8)
+        if shape.startswith("bm0"):
+            hi = 120 if shape == "bm0-low" else 124          # bm0-low: nothing in 121..124, the first value octet is 0x00
+            dp = list(range(1, hi + 1))
+            rng.shuffle(dp)
+            desc = dp[:rng.choice([0, 1, 4, 8, 9, 20, 64, 70])]
+            cdlv = [16] + bitmap0_octets(desc)
+            if shape == "bm0" and rng.chance(1, 4):
+                cdlv[1] |= rng.choice([0x10, 0x20, 0x30])   # spare bits of octet 1 (still format 00)
+            nca = len(desc)
+        elif shape == "absent":
+            cdlv = [0] * 17
+            nca = len(ca)
+        elif shape == "absent-junk":                          # length octet 0, old value octets behind it
+            cdlv = [0] + [rng.below(256) for _ in range(16)]
+            cdlv[1] |= 1
+            nca = len(ca)
+        elif shape == "wrong-len":
+            cdlv = [rng.choice([1, 15, 17, 255, rng.range(1, 255)])] + [rng.below(256) for _ in range(16)]
+            if cdlv[0] == 16:
+                cdlv[0] = 15
+            nca = len(ca)
+        else:
+            first = rng.choice([0x80, 0x82, 0x84, 0x88, 0x8A, 0x8C, 0x8E, 0x8E, 0x40, 0xC0, 0xB0])
+            cdlv = [16, first | (rng.below(2))] + [rng.below(256) if rng.chance(1, 2) else 0 for _ in range(15)]
+            nca = 8
+        v = _rand_bitmap(rng, l, nca)
+        if rng.chance(1, 2):
+            v[-1] |= 0x0F if l else 0
+        lv = ([l] + v + [0] * 9)[:9]
+        cases.append(mk_rendercd(rng.choice([0, 1, 63, 64]), rng.choice([0, 7, 1000, 65500]), bg, lv, cdlv, t, "rendercd " + shape))
+    bad = [mk_rendercd(0, 0, 0, [1] * 8, [0] * 17, {}, "malformed"), mk_rendercd(0, 0, 0, [1] * 9, [0] * 16, {}, "malformed"),
+           mk_rendercd(0, 0, 0, [1] * 9, [0] * 16 + [256], {}, "malformed")]
+    return cases + bad
+
+
+def rendercd_spec_py(c):
+    """gsm48_rr.c render_ma + 44.018 10.5.2.1b / 10.5.2.21 on the observations: (class, rc ma_len ma[64] flag changes)"""
+    lv, cdlv = c["lv"], c["cdlv"]
+    l = lv[0]
+    hop0 = [(c["hfill"] + j) % 65536 for j in range(64)]
+    m0 = masks_of(c)
+    if cdlv[0] == 0:
+        cls, m1 = "absent", m0
+    elif cdlv[0] != 16:
+        return "wrong-length", [_SI4.get("abn", 1), c["hl0"]] + hop0
+    else:
+        if cdlv[1] < 0x40:
+            cls = "bitmap0" + ("-first-octet-0" if cdlv[1] == 0 else "")
+            S = set(a for a in range(1, 125) if (cdlv[1 + 15 - (a - 1) // 8] >> ((a - 1) % 8)) & 1)
+        else:
+            cls, S = "other-format", set(c["other"])
+        m1 = [(m & 0xFE) | (1 if a in S else 0) for a, m in enumerate(m0)]
+    if l > 8:
+        return cls + "-long", [101 if c["hl0"] < 1 else 0, c["hl0"]] + hop0
+    e = spec(dict(c, si4=0, len=l, ma=lv[1:1 + l], kind="rendercd", bg=0, table={a: m for a, m in enumerate(m1)}))
+    exp, sel, ca = e
+    diffs = []
+    for a in range(1024):
+        if m1[a] != m0[a]:
+            diffs += [a, m1[a]]
+    return cls + ("-empty" if not sel else ""), [101 if not sel else 0] + exp[1:2 + 64] + diffs
+
+
 # ------------------------------------------------------------------ immediate assignment: message -> mob_alloc_lv -> L1
 
 def mk_assign(limit, ours, h, hl0, hfill, bg, tl, table, kind):
@@ -883,6 +1015,47 @@ def run_callers(ctx, replay_case):
             ctx.nontrivial(("render",) + cls)
     elif replay_case is None:
         ctx.count("render:not-executed")
+    # ---- gsm48_rr_render_ma with the Cell Channel Description (real gsm48_decode_freq_list)
+    if replay_case is not None:
+        cc = [rendercd_of_line(replay_case["line"], replay_case.get("kind", "replay"))] if replay_case.get("path") == "rendercd" else []
+    else:
+        cc = gen_rendercd_cases(rng, 700 if quick else 7000) if _SI4.get("freqlist") else []
+    if cc:
+        # the formats the model does not decode: the set the REAL decoder flags is the model's explicit argument
+        need = [k for k, c in enumerate(cc) if c["kind"] != "malformed" and c["cdlv"][0] == 16 and c["cdlv"][1] >= 64 and not c.get("other_fixed")]
+        fl, frep = run_impl(binp, [" ".join(map(str, [len(cc[k]["cdlv"])] + cc[k]["cdlv"])) for k in need], args=("freqlist",))
+        for k, o in zip(need, fl):
+            cc[k]["other"] = o[1:] if o and o[0] not in CODES and o != [-999] else []
+            if o and o[0] in CODES:
+                fail("gsm48_decode_freq_list: " + CODES[o[0]], show_rendercd(cc[k]), key="c20-render-cell-desc-memory", observed=o)
+        cl = [line_of_rendercd(c) for c in cc]
+        cimpl, creport = run_impl(binp, cl, args=("rendercd",))
+        cidx = list(range(len(cc)))
+        ctx.correspond("render-ma-cell-desc", "MobAlloc", cidx, lambda k: "w_c20_rendercd " + cl[k], lambda k: cimpl[k], show=lambda k: show_rendercd(cc[k]))
+        for k, c in enumerate(cc):
+            o = cimpl[k]
+            if c["kind"] == "malformed":
+                if o != [-999]:
+                    fail("rendercd harness accepted a malformed line", show_rendercd(c), key="c20-harness-malformed", expected=[-999], observed=o)
+                continue
+            cls, exp = rendercd_spec_py(c)
+            ctx.count("rendercd:" + cls)
+            if o and o[0] in CODES:
+                fail("gsm48_rr_render_ma / gsm48_decode_freq_list: " + CODES[o[0]], dict(show_rendercd(c), sanitizer=creport.get(k, "")),
+                     key="c20-render-cell-desc-memory", expected=exp[:10], observed=o)
+                continue
+            if o != exp:
+                if o[:1] != exp[:1]:
+                    key, what = "c20-render-cell-desc-cause", "gsm48_rr_render_ma: cause / acceptance against the length octet of the Cell Channel Description"
+                elif o[:2 + 64] != exp[:2 + 64]:
+                    key, what = "c20-render-cell-desc-list", ("gsm48_rr_render_ma: the hopping list handed to L1 is not the Mobile Allocation applied to the cell "
+                                                              "allocation in force (Cell Channel Description of the assignment: %s)" % cls)
+                else:
+                    key, what = "c20-render-cell-desc-table", "gsm48_rr_render_ma: FREQ_TYPE_SERV flags after the Cell Channel Description"
+                fail(what, show_rendercd(c), key=key, expected=exp[:12], observed=o[:12])
+            ctx.nontrivial(("rendercd", cls, c["lv"][0], c["cdlv"][0], c["cdlv"][1] == 0, exp[1] == 0))
+    elif replay_case is None:
+        ctx.count("rendercd:not-executed")
     # ---- IMMEDIATE ASSIGNMENT / IMMEDIATE ASSIGNMENT EXTENDED: message -> cd_now.mob_alloc_lv -> list at the L1 boundary
     if replay_case is not None:
         ac = [assign_of_line(replay_case["line"], replay_case.get("kind", "replay"))] if replay_case.get("path") == "assign" else []
@@ -1149,7 +1322,10 @@ def run(ctx):
                          "a previous ma_len <= 64) x the bitmap kinds; histories [SI1, A], [A, SI1], [SI1, A, B], [A, SI1, B], [A, B, SI1] of SI4 messages "
                          "(23-octet BCCH shape / shorter / longer than si4_msg, also with the IE starting in the last octets of the stored copy / cut / without IE / noise, arbitrary fixed part) and one SI1 (cell allocation "
                          "installed by the stubbed decode_freq_list) on one struct with si4_msg pre-filled (0, 0x2b, 0x72, 0x64, random) and its "
-                         "successor member poisoned; IMMEDIATE ASSIGNMENT / IMMEDIATE ASSIGNMENT EXTENDED messages (our request reference none / 1 / 2, hopping and "
+                         "successor member poisoned; gsm48_rr_render_ma with cell_desc_lv: absent (also with old value octets behind a zero length), length 16 bit map 0 "
+                         "(random subsets of 1..124, with and without 121..124, first octet 0x00, spare bits), wrong lengths (1, 15, 17, 255, random), range / "
+                         "variable-bit-map formats (the set flagged by the real gsm48_decode_freq_list handed to the model), serving allocation competing inside 1..124; "
+                         "IMMEDIATE ASSIGNMENT / IMMEDIATE ASSIGNMENT EXTENDED messages (our request reference none / 1 / 2, hopping and "
                          "non-hopping channel descriptions, Mobile Allocation length 0..limit with bits forced into the first and the last octet, lengths the guards "
                          "must refuse, IE cut short, no length octet, starting-time IE or noise behind) through the real handlers up to the L1 boundary; caller classes = (path, channel description, length octet, complete / cut in IE / "
                          "cut after tag / cut in channel description / no IE, SI1, list empty / full)")
